@@ -162,6 +162,7 @@ func (c *conn) handleSubscribe(in *inEnvelope) error {
 
 	initial := true
 	c.subscriptionLogger.Subscribe(c.ctx, id, tags)
+	verifConn("sub.accept", id, &initial)
 	// runner is written and read under c.mu only.
 	var runner *reactive.Rerunner
 	runner = reactive.NewRerunner(c.ctx, func(ctx context.Context) (interface{}, error) {
@@ -259,7 +260,6 @@ func (c *conn) handleSubscribe(in *inEnvelope) error {
 		return nil, nil
 	}, c.minRerunIntervalFunc(c.ctx, query), c.alwaysSpawnGoroutineFunc(c.ctx, query))
 	c.subscriptions[id] = runner
-	verifConn("sub.accept", id, &initial)
 
 	return nil
 }
@@ -301,6 +301,7 @@ func (c *conn) handleMutate(in *inEnvelope) error {
 
 	initial := true
 	e := c.executor
+	verifConn("mut.accept", id, &initial)
 	// runner is written and read under c.mu only.
 	var runner *reactive.Rerunner
 	runner = reactive.NewRerunner(c.ctx, func(ctx context.Context) (interface{}, error) {
@@ -374,7 +375,6 @@ func (c *conn) handleMutate(in *inEnvelope) error {
 		return nil, errors.New("stop")
 	}, c.minRerunIntervalFunc(c.ctx, query), c.alwaysSpawnGoroutineFunc(c.ctx, query))
 	c.subscriptions[id] = runner
-	verifConn("mut.accept", id, &initial)
 
 	return nil
 }
